@@ -52,7 +52,11 @@ func VerifC12Capture() {
 	s, ps := c12Payload(nd.Choice(3))
 	t := nd.String(2)
 	var src, want string
-	switch nd.Choice(3) {
+	switch nd.Choice(5) {
+	case 3: // an empty capture binds the empty text, replacing an earlier value
+		src, want = "{% assign c = 'old' %}{% capture c %}{% if false %}x{% endif %}{% endcapture %}[{{c}}]{% capture c %}{% endcapture %}[{{c}}]", "[][]"
+	case 4: // the same capture site in later iterations
+		src, want = "{% for i in (1..3) %}{% capture c %}{% if i == 1 %}{{t}}{% endif %}{% endcapture %}[{{c}}]{% endfor %}|{{c}}", "["+t+"][][]|"
 	case 0:
 		src, want = "A{% capture c %}x{{s}}y{% endcapture %}B[{{c}}]", "AB[x"+ps+"y]"
 	case 1:
